@@ -14,6 +14,7 @@ import Relic.Driver.C10
 import Relic.Driver.C13
 import Relic.Driver.C19
 import Relic.Driver.C17
+import Relic.Driver.C14
 open Relic
 
 def dispatch (line : String) : String :=
@@ -33,6 +34,7 @@ def dispatch (line : String) : String :=
   | "C13" :: rest => Relic.Driver.C13.handle rest
   | "C19" :: rest => Relic.Driver.C19.handle rest
   | "C17" :: rest => Relic.Driver.C17.handle rest
+  | "C14" :: rest => Relic.Driver.C14.handle rest
   | _ => "bad-op"
 
 partial def loop (h : IO.FS.Stream) (out : IO.FS.Stream) : IO Unit := do
